@@ -61,13 +61,15 @@ type PreJ struct {
 }
 
 type Scn struct {
-	Kind  string  `json:"kind"`
-	Hash  string  `json:"hash"`
-	Ads   int     `json:"ads"`           // advertisement chain: ranks 1..Ads (Ads = newest)
-	Chunk int     `json:"chunks"`        // then an entries chain: ranks Ads+1..Ads+Chunk (last = first chunk)
-	Raw   int     `json:"raw,omitempty"` // then raw-codec leaf blocks: ranks Ads+Chunk+1.. (served by the test server itself)
-	Pre   []PreJ  `json:"pre,omitempty"`
-	Syncs []SyncJ `json:"syncs"`
+	Kind    string  `json:"kind"`
+	Hash    string  `json:"hash"`
+	Ads     int     `json:"ads"`                // advertisement chain: ranks 1..Ads (Ads = newest)
+	Chunk   int     `json:"chunks"`             // then an entries chain: ranks Ads+1..Ads+Chunk (last = first chunk)
+	Raw     int     `json:"raw,omitempty"`      // then raw-codec leaf blocks: ranks Ads+Chunk+1.. (served by the test server itself)
+	BigRaw  []int   `json:"big_raw,omitempty"`  // then raw-codec blocks of exactly these sizes
+	BigNode []int   `json:"big_node,omitempty"` // then dag-json blocks whose encoding is exactly these sizes
+	Pre     []PreJ  `json:"pre,omitempty"`
+	Syncs   []SyncJ `json:"syncs"`
 }
 
 var hashKinds = map[string][2]int64{
@@ -90,7 +92,7 @@ var (
 )
 
 func getWorld(sc Scn) *builtWorld {
-	key := fmt.Sprintf("%s|%d|%d|%d", sc.Hash, sc.Ads, sc.Chunk, sc.Raw)
+	key := fmt.Sprintf("%s|%d|%d|%d|%v|%v", sc.Hash, sc.Ads, sc.Chunk, sc.Raw, sc.BigRaw, sc.BigNode)
 	if bw, ok := worlds[key]; ok {
 		return bw
 	}
@@ -104,6 +106,18 @@ func getWorld(sc Scn) *builtWorld {
 	w.ChunkChain(sc.Chunk)
 	for i := 0; i < sc.Raw; i++ {
 		w.AddRaw([]byte(fmt.Sprintf("raw leaf %d of the %s world: 0123456789abcdefghijklmnopqrstuvwxyz", i, sc.Hash)))
+	}
+	for i, size := range sc.BigRaw {
+		data := make([]byte, size)
+		x := uint32(12345 + i)
+		for j := range data {
+			x = x*1664525 + 1013904223
+			data[j] = byte(x >> 24)
+		}
+		w.AddRaw(data)
+	}
+	for _, size := range sc.BigNode {
+		w.AddPadded(size)
 	}
 	bw := &builtWorld{w: w, srv: syncdrv.NewServer(w, pubKey)}
 	worlds[key] = bw
@@ -485,6 +499,6 @@ func main() {
 		return
 	}
 	c.Res.Exhaustive = false
-	c.Res.Rule = "advertisement chains of length 1..4 (sha2-256) and 3 (sha2-256 truncated to 16 / 20, sha2-512, blake2b-256, identity), entries chains of length 2: at every request position of the sync, unsegmented and with segment size 1 / 2: 16 (quick) single-bit flips spread over the body, truncation at sampled lengths (every length for the entry chunks), 1 / 3 / 100 appended bytes, the empty body, a 4 MiB body, the body of every other block, status 404 / 500 / 204, a 200 answer cut in mid-body (full Content-Length, k bytes, connection closed; k = 0, 1, half, len-1) followed by good answers to any repeated request and by a clean second sync, on dag-json chains and on raw-codec leaf blocks; two faults in one sync; pre-stored sound and corrupt entries; sequences of failing and succeeding syncs on one subscriber. non-trivial = a fault that was actually delivered"
+	c.Res.Rule = "advertisement chains of length 1..4 (sha2-256) and 3 (sha2-256 truncated to 16 / 20, sha2-512, blake2b-256, identity), entries chains of length 2: at every request position of the sync, unsegmented and with segment size 1 / 2: 16 (quick) single-bit flips spread over the body, truncation at sampled lengths (every length for the entry chunks), 1 / 3 / 100 appended bytes, the empty body, a 4 MiB body, blocks whose genuine size is exactly 4 MiB - 1 / 4 MiB / 4 MiB + 1 (raw-codec and dag-json) served exactly, with 1 / 4096 appended bytes and cut by one byte, the body of every other block, status 404 / 500 / 204, a 200 answer cut in mid-body (full Content-Length, k bytes, connection closed; k = 0, 1, half, len-1) followed by good answers to any repeated request and by a clean second sync, on dag-json chains and on raw-codec leaf blocks; two faults in one sync; pre-stored sound and corrupt entries; sequences of failing and succeeding syncs on one subscriber. non-trivial = a fault that was actually delivered"
 	gen(c)
 }
